@@ -97,6 +97,26 @@ def flag_writers(repo: Repo) -> List[Tuple[str, str, ast.AST]]:
     return out
 
 
+def _only_called_from(repo: Repo, name: str, allowed: Tuple[str, str]) -> bool:
+    """Every call (or other mention) of the module-level function `name` lies inside the allowed function."""
+    n_calls = 0
+    for rel, sf in repo.files.items():
+        if not sf.modname.startswith("rv"):
+            continue
+        for fn_qn, fn in list(_functions(sf.tree)) + [("<module>", None)]:
+            nodes = walk_no_nested(fn) if fn is not None else [n for st in sf.tree.body if not isinstance(st, (ast.FunctionDef, ast.ClassDef))
+                                                               for n in ast.walk(st)]
+            for n in nodes:
+                hit = (isinstance(n, ast.Name) and n.id == name and isinstance(n.ctx, ast.Load)) or \
+                      (isinstance(n, ast.Attribute) and n.attr == name) or \
+                      (isinstance(n, ast.alias) and n.name == name)
+                if hit:
+                    n_calls += 1
+                    if (rel, fn_qn) != allowed:
+                        return False
+    return n_calls > 0
+
+
 def single_writer(repo: Repo, rep, P: str):
     writers = flag_writers(repo)
     allowed_fn = ("src/python/rv/errors.py", OVERRIDE)
@@ -108,12 +128,16 @@ def single_writer(repo: Repo, rep, P: str):
         if (rel, qn) == allowed_fn:
             n_inside += 1
             continue
+        if rel == allowed_fn[0] and qn.startswith("_") and not qn.startswith("__") and _only_called_from(repo, qn, allowed_fn):
+            n_inside += 1
+            rep.ok(f"{P}.R1", f"{rel}:{qn}", norm(node), f"private helper called from {OVERRIDE} only (analysed inlined there)")
+            continue
         rep.violation(f"{P}.R1", f"{rel}:{qn}", norm(node),
                       f"the strictness flag is written outside {OVERRIDE}; nothing restores it on the exits "
                       "of this function", f"{rel}:{node.lineno}")
     if n_inside:
         rep.ok(f"{P}.R1", f"src/python/rv/errors.py:{OVERRIDE}", f"{n_inside} stores, all inside the context manager")
-    rep.count("flag_store_sites", len(writers), 3)
+    rep.count("flag_store_sites", len(writers), 2)
     rep.count("files_scanned", len(repo.files), 100)
     # the flag is read where validation decides to raise
     fn = repo.func("rv.errors", "raise_or_warn_controller_value_validation")
@@ -144,8 +168,9 @@ def _env_set(env: Env, k: str, v: str) -> Env:
 
 
 def restore_rule(repo: Repo, rep, P: str):
-    fn = repo.func("rv.errors", OVERRIDE)
+    from .. import inline
     sf = repo.module("rv.errors")
+    fn = inline.flatten(repo, None, repo.func("rv.errors", OVERRIDE), sf=sf)
     construct = f"{sf.rel}:{OVERRIDE}"
     rep.func(f"rv.errors.{OVERRIDE}")
     decos = [norm(d) for d in fn.decorator_list]
@@ -178,6 +203,11 @@ def restore_rule(repo: Repo, rep, P: str):
             e2 = env
             if isinstance(s, ast.Assign) and len(s.targets) == 1 and isinstance(s.targets[0], ast.Name):
                 e2 = _env_set(env, s.targets[0].id, value_of(s.value, env))
+            elif isinstance(s, ast.Assign) and len(s.targets) == 1 and isinstance(s.targets[0], ast.Tuple) and isinstance(s.value, ast.Tuple) \
+                    and len(s.targets[0].elts) == len(s.value.elts) and all(isinstance(t, ast.Name) for t in s.targets[0].elts):
+                vals = [value_of(v, env) for v in s.value.elts]          # right-hand side first, then the bindings
+                for t, v in zip(s.targets[0].elts, vals):
+                    e2 = _env_set(e2, t.id, v)
             elif isinstance(s, ast.AugAssign) and isinstance(s.target, ast.Name):
                 e2 = _env_set(env, s.target.id, "?aug")
             out.add(e2)
@@ -238,8 +268,10 @@ def _opener_helpers(sf) -> Dict[str, ast.FunctionDef]:
 
 
 def file_typestate(repo: Repo, rep, P: str):
-    fn = repo.func("rv.readers.reader", "read_sunvox_file")
+    from ..cfg import desugar_exitstack
+    from .. import inline
     sf = repo.module("rv.readers.reader")
+    fn = desugar_exitstack(inline.flatten(repo, None, repo.func("rv.readers.reader", "read_sunvox_file"), sf=sf))
     construct = f"{sf.rel}:read_sunvox_file"
     rep.func("rv.readers.reader.read_sunvox_file")
     g = CFG(fn)
@@ -411,6 +443,32 @@ def reader_classes(repo: Repo) -> Set[str]:
     return out
 
 
+def _reaches_only_from(repo: Repo, sf, name: str, entry: str, depth: int = 0) -> bool:
+    """The private module-level function `name` is mentioned only inside `entry` or inside private helpers for which the same holds."""
+    if depth > 4:
+        return False
+    mentions = []
+    for rel2, sf2 in repo.files.items():
+        if not sf2.modname.startswith("rv"):
+            continue
+        for fn_qn, fn in list(_functions(sf2.tree)) + [("<module>", None)]:
+            nodes = walk_no_nested(fn) if fn is not None else [n for st in sf2.tree.body if not isinstance(st, (ast.FunctionDef, ast.ClassDef))
+                                                               for n in ast.walk(st)]
+            for n in nodes:
+                if (isinstance(n, ast.Name) and n.id == name and isinstance(n.ctx, ast.Load)) or (isinstance(n, ast.Attribute) and n.attr == name) \
+                        or (isinstance(n, ast.alias) and n.name == name):
+                    mentions.append((sf2, fn_qn))
+    if not mentions:
+        return False
+    for sf2, q in mentions:
+        if sf2 is sf and q == entry:
+            continue
+        if sf2 is sf and q.startswith("_") and not q.startswith("__") and q != name and _reaches_only_from(repo, sf, q, entry, depth + 1):
+            continue
+        return False
+    return True
+
+
 def reader_entry_rule(repo: Repo, rep, P: str):
     readers = reader_classes(repo)
     rep.count("reader_classes", len(readers), 6)
@@ -428,6 +486,9 @@ def reader_entry_rule(repo: Repo, rep, P: str):
                     if cname == "InitialReader":
                         if sf.modname == "rv.readers.reader" and qn == "read_sunvox_file":
                             rep.ok(f"{P}.R4", f"{rel}:{qn}", norm(n), "top-level reader built inside the guarded entry")
+                        elif sf.modname == "rv.readers.reader" and qn.startswith("_") and not qn.startswith("__") \
+                                and _reaches_only_from(repo, sf, qn, "read_sunvox_file"):
+                            rep.ok(f"{P}.R4", f"{rel}:{qn}", norm(n), "private helper reached from read_sunvox_file only (analysed inlined there)")
                         else:
                             rep.violation(f"{P}.R4", f"{rel}:{qn}", norm(n),
                                           "InitialReader constructed outside read_sunvox_file: the load bypasses the "
